@@ -94,11 +94,6 @@ def _dlock_misused(args, kwargs):
     """the call is bound against the signature of the INSTALLED distributed.Lock: handing it a
     client where that release expects its scheduler connection gives a lock that fails on first
     use (AttributeError: 'Client' object has no attribute 'semaphore_register')"""
-    import inspect
-    import os
-
-    if not os.environ.get("VERIF_DEV"):
-        return False
     sig = _REAL_DLOCK_SIG
     ba = sig.bind(None, *args, **kwargs)  # TypeError for arguments that release does not take, as the real class raises
     return ba.arguments.get("scheduler_rpc") is not None
@@ -135,8 +130,8 @@ class FakeLock:
 
 
 class FakeVar:
-    def __init__(self, *a, **k):
-        pass
+    def __init__(self, name=None, client=None, **k):
+        self.name = name  # distributed.Variable has it
 
     def get(self, timeout=None):
         v = po.rec().fresh("rdv")
@@ -223,6 +218,18 @@ def c_interleave(param, tier):
             wk = s3m.DelayedS3Writer(WorkerMPU("b", "k"), {})
             wk.finalise([{"PartNumber": 1, "ETag": "e"}])
 
+    if param.get("after_earlier_upload"):
+        # state between uploads: the same object (bucket, key) was uploaded before in this process,
+        # start to finish; whatever that left behind in the process must not be taken for this upload
+        def earlier():
+            if mode == "local":
+                w0 = s3m.DelayedS3Writer(SharedMPU("b", "k"), {})
+            else:
+                w0 = s3m.DelayedS3Writer(WorkerMPU("b", "k"), {})
+            w0(1, b"x")
+            w0.finalise([{"PartNumber": 1, "ETag": "e"}])
+
+        po.thread_paths(earlier)
     wp = po.thread_paths(write_body)
     threads = [wp] * n_writers
     after = []
@@ -350,11 +357,21 @@ def _replay_cluster(param, sched):
     import odc.geo.cog._s3 as s3m
 
     order = [e[0] for e in sched]
-    ts = po.Turnstile(order, timeout=3.0)
+    _ts = po.Turnstile(order, timeout=3.0)
+
+    class _Free:
+        """the main thread (an earlier upload, before the scheduled threads start) runs freely"""
+
+        diverged = property(lambda self: _ts.diverged)
+
+        def step(self, t, f):
+            return f() if t is None else _ts.step(t, f)
+
+    ts = _Free()
     tid_of = {}
 
     def tid():
-        return tid_of[threading.current_thread().name]
+        return tid_of.get(threading.current_thread().name)
 
     calls = {"create": 0, "ids": []}
     shared = {"v": None}
@@ -383,8 +400,8 @@ def _replay_cluster(param, sched):
             return s3
 
     class Var:
-        def __init__(self, *a, **k):
-            pass
+        def __init__(self, name=None, client=None, **k):
+            self.name = name
 
         def get(self, timeout=None):
             def eff():
@@ -417,6 +434,13 @@ def _replay_cluster(param, sched):
     distributed.Variable = Var
     distributed.Lock = DL
     s3m._dask_client = lambda: object()
+    earlier_ids, creates_before = set(), 0
+    if param.get("after_earlier_upload"):
+        w0 = s3m.DelayedS3Writer(MPU("b", "k"), {})
+        w0(1, b"x")
+        w0.finalise([{"PartNumber": 1, "ETag": "e"}])
+        earlier_ids, creates_before = set(calls["ids"]), calls["create"]
+        del calls["ids"][:]
     errors = []
 
     def body(i, final):
@@ -439,7 +463,8 @@ def _replay_cluster(param, sched):
         t.start()
     for t in ths:
         t.join(20)
-    bad = bool(errors) or calls["create"] > 1 or len(set(calls["ids"])) > 1
+    new_ids = set(calls["ids"])
+    bad = bool(errors) or (calls["create"] - creates_before) > 1 or len(new_ids) > 1 or bool(new_ids & earlier_ids) or (bool(new_ids) and calls["create"] == creates_before)
     return {"reproduced": bad, "errors": errors, "creates": calls["create"], "ids": calls["ids"], "diverged": ts.diverged, "model": {"schedule": sched}}
 
 
@@ -781,6 +806,7 @@ def _inter_params(tier, rng):
     out = []
     for mode in ("local", "cluster"):
         out += [dict(mode=mode, writers=2, finalise=False), dict(mode=mode, writers=3, finalise=False), dict(mode=mode, writers=2, finalise=True)]
+        out.append(dict(mode=mode, writers=2, finalise=False, after_earlier_upload=True))
         if tier == "thorough":
             out += [dict(mode=mode, writers=1, finalise=True), dict(mode=mode, writers=3, finalise=True), dict(mode=mode, writers=4, finalise=False)]
     return out
